@@ -74,6 +74,11 @@ class Rule:
 
         cast = spec.get("cast")
         if cast:
+            if not isinstance(cast, dict):
+                raise MalformedRuleSpec(
+                    f"Rule cast must be a mapping from type name to type name, but "
+                    f"found: {cast!r}."
+                )
             cast = dict(cast)  # rewritten below; not the caller's
         for cast_from in list((cast or {}).keys()):
             cast_to = cast.pop(cast_from)
